@@ -258,6 +258,8 @@ def compare(it, op, a, b, node):
                 return K(r != neg)
             if isinstance(a, (Frame, Arr, Seq, DictV, Obj, Func, ClassRef, Rot)):
                 return K(neg)
+            if isinstance(a, Val) and getattr(a, "given", False):
+                return K(neg)  # a symbolic argument stands for a value the caller passed
             t = mk("eq", to_term(a), const(None))
             return Val(mk("not", t) if neg else t)
         if is_pyconst(a) and is_pyconst(b):
@@ -411,10 +413,14 @@ def getattr_(it, base, attr, node, fr):
         return Method(base, attr)
     if isinstance(base, Arr):
         if attr == "shape":
-            n = K(1) if base.single_row else Val((base.space.nrows() if base.space else call("nrows", const(0))))
-            if not base.single_row:
-                n.shape_of = base
-                n.axis = 0
+            alloc_n = getattr(base, "nrows", None)
+            if not base.single_row and base.space is None and alloc_n is not None and isinstance(alloc_n, (Val, Unk)):
+                n = alloc_n  # np.zeros((n, k)).shape[0] is the n it was allocated with
+            else:
+                n = K(1) if base.single_row else Val((base.space.nrows() if base.space else call("nrows", const(0))))
+                if not base.single_row:
+                    n.shape_of = base
+                    n.axis = 0
             return Seq([n, K(len(base.cols))] if base.ndim == 2 else [K(len(base.cols))], "tuple")
         if attr == "T":
             if base.ndim == 2 and not base.single_row:
@@ -871,6 +877,18 @@ def index_space(it, base, idx, node):
 
 
 def arr_getitem(it, a, idx, node):
+    if isinstance(idx, Seq) and idx.kind == "tuple" and a.ndim == 2 and len(idx.items) in (2, 3) and is_pyconst(idx.items[0]) \
+            and pyval(idx.items[0]) is None and all((isinstance(x, SliceV) and x.is_full()) or (is_pyconst(x) and pyval(x) is Ellipsis)
+                                                    for x in idx.items[1:]) \
+            and (len(idx.items) == 3 or (is_pyconst(idx.items[1]) and pyval(idx.items[1]) is Ellipsis)):
+        # a[np.newaxis, :, :] / a[None, ...] : the (1, N, k) view of an (N, k) array, the same thing reshape((1, N, k)) gives
+        shp = getattr_(it, a, "shape", node, None)
+        from .libcalls import arr_method
+        return arr_method(it, a, "reshape", [Seq([K(1)] + list(shp.items), "tuple")], {}, node, None)
+    if is_pyconst(idx) and pyval(idx) is None and a.ndim == 2:
+        shp = getattr_(it, a, "shape", node, None)
+        from .libcalls import arr_method
+        return arr_method(it, a, "reshape", [Seq([K(1)] + list(shp.items), "tuple")], {}, node, None)
     if isinstance(idx, Seq) and idx.kind == "tuple" and len(idx.items) == 2 and a.ndim == 2:
         r, c = idx.items
         # column part
@@ -1192,6 +1210,10 @@ def setitem(it, obj, idx, value, node, fr):
                     else:
                         names = [sel] if isinstance(sel, str) else sel
                 store_cols(it, base, names, value, node, mask)
+                return
+            if obj.kind == "loc" and isinstance(idx, (Val, Unk)) and isinstance(value, Frame):
+                # df.loc[rows] = other_table : all columns of the selected rows
+                store_cols(it, base, base.names(), value, node, to_term(idx))
                 return
             raise Unsupported(".loc store form", node)
         if isinstance(base, (Val, Unk)):
